@@ -607,6 +607,32 @@ def tailU (cfg : Cfg) (a : A) : A :=
   let a := if a.now - a.tTraffic > 1000 then { a with pubR := [], recvR := [], tTraffic := a.now, seq := a.seq + 1 } else a
   if a.now - a.tInfo > 5000 then { a with tInfo := a.now } else a
 
+/-- the TIMING_MESSAGE clause of `Spec.tail`: the report is checked when the period has elapsed, and there must be no
+    report before -/
+def timingPart (cfg : Cfg) (a : A) (evs : List Ev) : A :=
+  if cfg.timing && a.now - a.tTiming > 900 then checkTiming cfg a evs
+  else a.chk (!(sends evs).any (fun p => match p.2.2.body with | .timing .. => true | _ => false)) "C18"
+    "TIMING_MESSAGE sent before its period elapsed"
+
+/-- …then the tallies of the TIMING interval start afresh (`a0`: the state before the clause) -/
+def timingReset (cfg : Cfg) (a0 a : A) : A :=
+  if cfg.timing && a0.now - a0.tTiming > 900 then { a with pubT := [], recvT := [], tTiming := a.now } else a
+
+/-- the MESSAGE_TRAFFIC clause of `Spec.tail` -/
+def trafficPart (cfg : Cfg) (a : A) (evs : List Ev) : A :=
+  if a.now - a.tTraffic > 1000 then checkTraffic cfg a evs else a
+
+def trafficReset (a0 a : A) : A :=
+  if a0.now - a0.tTraffic > 1000 then { a with pubR := [], recvR := [], tTraffic := a.now, seq := a.seq + 1 } else a
+
+def infoReset (a : A) : A := if a.now - a.tInfo > 5000 then { a with tInfo := a.now } else a
+
+/-- `Spec.tail` in pieces -/
+theorem tail_parts (cfg : Cfg) (a : A) (evs : List Ev) :
+    tail cfg a evs =
+      infoReset (trafficReset (timingReset cfg a (timingPart cfg a evs))
+        (trafficPart cfg (timingReset cfg a (timingPart cfg a evs)) evs)) := rfl
+
 theorem tailU_fields (cfg : Cfg) (a : A) :
     (tailU cfg a).now = a.now ∧ (tailU cfg a).mods = a.mods ∧ (tailU cfg a).nAccepted = a.nAccepted ∧
     (tailU cfg a).fail = a.fail ∧ (tailU cfg a).buf = a.buf ∧ (tailU cfg a).w = a.w ∧ (tailU cfg a).errs = a.errs ∧
